@@ -323,8 +323,12 @@ def run(f, fixture, rep, cfg, tier):
         for sb in sorted(tf2[0].reachable(), reverse=True):
             info = switch_info(tf2[0], sb)
             if info and info["kind"] == "discr" and (info.get("enum") or "").endswith("CompressionWithLevel"):
-                enc_arms = arm_calls(tf2[0], info, sb)
-                break
+                cand = arm_calls(tf2[0], info, sb)
+                # the match that builds the encoders (a level check may match on the same enum first)
+                if any(re.search(r"Encoder", c.decl) for cs in cand.values() for c in cs):
+                    enc_arms = cand
+                    break
+                enc_arms = enc_arms or cand
     for sb in sorted(ds.reachable()):
         info = switch_info(ds, sb)
         if info and info["kind"] == "discr" and (info.get("enum") or "").endswith("CompressionType"):
